@@ -3,7 +3,7 @@ from __future__ import annotations
 
 import ast
 
-from ..astutil import dotted, is_none, norm, strip_docstring, walk_body, walk_local
+from ..astutil import is_const, dotted, is_none, norm, strip_docstring, walk_body, walk_local
 from ..dtree import bool_function, decision_tree, leave
 from ..finite import k_eq, k_is, k_none, NeedAtom
 from ..flow import Interp, Semantics
@@ -525,6 +525,33 @@ def r_xp_elements(ck: Checker, modname: str = XP, rule: str = "R-XP-ELEMENTS", m
                 ck.violation(rule, f, call, what, construct=f"XPathTransformer.xpath rebuilds an element as {norm(call)[:90]}")
         else:
             n_build += 1
+            # a flag handed to the compiled step (anywhere=<local>) is decided per step: it is (re)set unconditionally in the iteration
+            # that compiles the step, never carried over from an earlier one
+            if isinstance(anyw, ast.Name):
+                loops_ = [lp_ for lp_ in ast.walk(fn) if isinstance(lp_, ast.For) and any(x is call for x in ast.walk(lp_))]
+                if loops_:
+                    outer_ = max(loops_, key=lambda lp_: sum(1 for _ in ast.walk(lp_)))
+                    first_ = next((st_ for st_ in outer_.body if any(isinstance(x, ast.Name) and x.id == anyw.id for x in ast.walk(st_))), None)
+                    reset_ = isinstance(first_, ast.Assign) and len(first_.targets) == 1 and isinstance(first_.targets[0], ast.Name) and first_.targets[0].id == anyw.id \
+                        and not any(isinstance(x, ast.Name) and x.id == anyw.id for x in ast.walk(first_.value))
+                    if not reset_:
+                        # the other sound scheme: False before the loop, and set back to False on every path after a step was compiled
+                        pre_ok = any(isinstance(st_, ast.Assign) and len(st_.targets) == 1 and norm(st_.targets[0]) == anyw.id and is_const(st_.value, False)
+                                     for st_ in fn.body[:fn.body.index(outer_)]) if outer_ in fn.body else False
+                        after_ok = True
+                        for lf_ in decision_tree(outer_.body, max_atoms=10):
+                            idxs = [k_ for k_, st_ in enumerate(lf_.stmts) if any(x is call for x in ast.walk(st_))]
+                            if not idxs:
+                                continue
+                            tail_ = lf_.stmts[idxs[-1] + 1:]
+                            if not any(isinstance(st_, ast.Assign) and len(st_.targets) == 1 and norm(st_.targets[0]) == anyw.id and is_const(st_.value, False) for st_ in tail_):
+                                after_ok = False
+                        reset_ = pre_ok and after_ok
+                    whatf = "the `anywhere` flag of a compiled step is decided within the iteration that compiles it"
+                    if reset_:
+                        ck.holds(rule, f, call, whatf)
+                    else:
+                        ck.violation(rule, f, call, whatf, construct=f"XPathTransformer.xpath: `{anyw.id}` is not reset at the start of each step (a '//' leaks onto the steps to its left)")
             what = "every compiled step has a class (the empty elements of '//' are folded until a real step is reached) and carries the field / index of that same step"
             cls_expr = args.get("ast_class")
             states = sem.at.get(id(call), [])
